@@ -83,6 +83,7 @@ func mutate(g *G, s string) string {
 }
 
 func genC15(g *G) {
+	emitValidateBoundary(g)
 	for _, f := range genFrames(g, true) {
 		g.Emit("fstr %s", frameArgs(f))
 		z := zeroUnused(f)
@@ -202,6 +203,7 @@ func ws(g *G) string {
 }
 
 func genC16(g *G) {
+	emitValidateBoundary(g)
 	for _, f := range genFrames(g, true) {
 		g.Emit("fjson %s", frameArgs(f))
 		z := zeroUnused(f)
